@@ -9,6 +9,7 @@ extern crate rustc_driver;
 extern crate rustc_hir;
 extern crate rustc_interface;
 extern crate rustc_middle;
+extern crate rustc_session;
 extern crate rustc_span;
 
 use rustc_driver::{Callbacks, Compilation};
@@ -56,6 +57,15 @@ struct Ctx<'tcx> {
 impl<'tcx> Ctx<'tcx> {
     fn path(&self, d: DefId) -> String {
         self.tcx.def_path_str(d)
+    }
+    /// Stable cross-crate key: crate name (+ "#bin" for the local executable) + verbose def path.
+    fn key(&self, d: DefId) -> String {
+        let tcx = self.tcx;
+        let mut c = tcx.crate_name(d.krate).to_string();
+        if d.is_local() && tcx.crate_types().iter().any(|t| matches!(t, rustc_session::config::CrateType::Executable)) {
+            c.push_str("#bin");
+        }
+        format!("{}{}", c, tcx.def_path(d).to_string_no_crate_verbose())
     }
     fn loc(&self, sp: Span) -> (String, usize, usize, usize) {
         let sm = self.tcx.sess.source_map();
@@ -152,8 +162,8 @@ impl<'a, 'tcx> BodyFacts<'a, 'tcx> {
         }
         let ai = tcx.associated_item(d);
         match ai.container {
-            ty::AssocContainer::Trait => Some(self.cx.path(d)),
-            ty::AssocContainer::TraitImpl(Ok(t)) => Some(self.cx.path(t)),
+            ty::AssocContainer::Trait => Some(self.cx.key(d)),
+            ty::AssocContainer::TraitImpl(Ok(t)) => Some(self.cx.key(t)),
             _ => None,
         }
     }
@@ -185,6 +195,12 @@ impl<'a, 'tcx> MirVisitor<'tcx> for BodyFacts<'a, 'tcx> {
                         .collect(),
                     _ => vec![],
                 };
+                let (ckey, dkey) = if let Some((def_id, gargs)) = func.const_fn_def() {
+                    let (_, d) = self.resolve(def_id, gargs);
+                    (cx.key(d), cx.key(def_id))
+                } else {
+                    (String::new(), String::new())
+                };
                 let (kind, callee, declared, trait_item, local, krate) =
                     if let Some((def_id, gargs)) = func.const_fn_def() {
                         let (kind, d) = self.resolve(def_id, gargs);
@@ -202,8 +218,10 @@ impl<'a, 'tcx> MirVisitor<'tcx> for BodyFacts<'a, 'tcx> {
                 let mut s = String::new();
                 let _ = write!(
                     s,
-                    "{{\"bb\":{},\"kind\":{},\"callee\":{},\"declared\":{},\"trait_item\":{},\"local\":{},\"crate\":{},\"fn_ty\":{},\"dest\":{},\"args\":[{}],\"arg_tys\":[{}],{}}}",
+                    "{{\"bb\":{},\"ckey\":{},\"dkey\":{},\"kind\":{},\"callee\":{},\"declared\":{},\"trait_item\":{},\"local\":{},\"crate\":{},\"fn_ty\":{},\"dest\":{},\"args\":[{}],\"arg_tys\":[{}],{}}}",
                     location.block.index(),
+                    esc(&ckey),
+                    esc(&dkey),
                     esc(&kind),
                     esc(&callee),
                     esc(&declared),
@@ -261,7 +279,8 @@ impl<'a, 'tcx> MirVisitor<'tcx> for BodyFacts<'a, 'tcx> {
                 }
                 AggregateKind::Closure(did, _) | AggregateKind::Coroutine(did, _) | AggregateKind::CoroutineClosure(did, _) => {
                     self.refs.push(format!(
-                        "{{\"kind\":\"closure\",\"path\":{},\"bb\":{}}}",
+                        "{{\"kind\":\"closure\",\"key\":{},\"path\":{},\"bb\":{}}}",
+                        esc(&cx.key(*did)),
                         esc(&cx.path(*did)),
                         location.block.index()
                     ));
@@ -278,7 +297,9 @@ impl<'a, 'tcx> MirVisitor<'tcx> for BodyFacts<'a, 'tcx> {
         if let ty::FnDef(def_id, gargs) = t.kind() {
             let (kind, d) = self.resolve(*def_id, gargs);
             self.refs.push(format!(
-                "{{\"kind\":\"fnitem\",\"path\":{},\"declared\":{},\"res\":{},\"trait_item\":{},\"bb\":{}}}",
+                "{{\"kind\":\"fnitem\",\"key\":{},\"dkey\":{},\"path\":{},\"declared\":{},\"res\":{},\"trait_item\":{},\"bb\":{}}}",
+                esc(&cx.key(d)),
+                esc(&cx.key(*def_id)),
                 esc(&cx.path(d)),
                 esc(&cx.path(*def_id)),
                 esc(&kind),
@@ -380,19 +401,19 @@ impl Callbacks for Cb {
             bf.visit_body(body);
             let (file, line, _c, end_line) = cx.loc(body.span);
             let parent = if dk == DefKind::Closure {
-                Some(cx.path(tcx.typeck_root_def_id(did)))
+                Some(cx.key(tcx.typeck_root_def_id(did)))
             } else {
                 None
             };
-            let immediate_parent = if dk == DefKind::Closure { Some(cx.path(tcx.parent(did))) } else { None };
+            let immediate_parent = if dk == DefKind::Closure { Some(cx.key(tcx.parent(did))) } else { None };
             let (trait_item, is_default, self_ty) = if dk == DefKind::AssocFn {
                 let ai = tcx.associated_item(did);
                 match ai.container {
-                    ty::AssocContainer::Trait => (Some(cx.path(did)), true, None),
+                    ty::AssocContainer::Trait => (Some(cx.key(did)), true, None),
                     ty::AssocContainer::TraitImpl(Ok(t)) => {
                         let imp = tcx.parent(did);
                         let st = tcx.type_of(imp).instantiate_identity().skip_norm_wip().to_string();
-                        (Some(cx.path(t)), false, Some(st))
+                        (Some(cx.key(t)), false, Some(st))
                     }
                     _ => {
                         let imp = tcx.parent(did);
@@ -447,7 +468,8 @@ impl Callbacks for Cb {
             let mut s = String::new();
             let _ = write!(
                 s,
-                "{{\"id\":{},\"kind\":{},\"file\":{},\"line\":{},\"end_line\":{},\"exp\":{},\"derived\":{},\"root\":{},\"parent\":{},\"trait_item\":{},\"is_default\":{},\"self_ty\":{},\"arg_count\":{},\"calls\":[{}],\"refs\":[{}],\"asserts\":[{}],\"aggregates\":[{}],\"succ\":[{}],\"idom\":[{}],\"blocks\":[{}],\"locals\":{{{}}},\"names\":{{{}}}}}",
+                "{{\"key\":{},\"id\":{},\"kind\":{},\"file\":{},\"line\":{},\"end_line\":{},\"exp\":{},\"derived\":{},\"root\":{},\"parent\":{},\"trait_item\":{},\"is_default\":{},\"self_ty\":{},\"arg_count\":{},\"calls\":[{}],\"refs\":[{}],\"asserts\":[{}],\"aggregates\":[{}],\"succ\":[{}],\"idom\":[{}],\"blocks\":[{}],\"locals\":{{{}}},\"names\":{{{}}}}}",
+                esc(&cx.key(did)),
                 esc(&cx.path(did)),
                 esc(kind),
                 esc(&file),
